@@ -166,6 +166,27 @@ def extra(tier, seed, stats):
             cases_.append({"seqs": seqs, "kind": "protein", "mode": mode, "pcase": pc, "ptu": 0.0, "mask_seed": i,
                            "cfg": {"type": 5, "threads": 1, "gpo": -1.0, "gpe": -1.0, "tgpe": -1.0}, "entry": "file", "name_mode": "distinct",
                            "nfiles": 1})
+    # >= 100 sequences (k-means guide tree with anchor sequences) in which one sequence, the longest, occurs 5..12 times in a
+    # row of the length order; A' respells a few residues (case, T/U): whatever compares sequences must compare them as
+    # residues, not as written
+    nm = 20 if tier == "quick" else 60
+    for i in range(nm):
+        rnd = random.Random(seed * 977 + i)
+        kind = "dna" if (i // 2) % 2 else "protein"
+        alpha = gen.NUC if kind == "dna" else gen.AA
+        if i % 2:
+            n = rnd.randint(100, 170)
+            fam = gen.expand_family(rnd.randrange(2 ** 32), alpha, n, rnd.randint(25, 50), 0.2, 0.06, 0.2)
+            longest = max(fam, key=len) + "".join(rnd.choice(alpha) for _ in range(4))
+            seqs = fam + [longest] * rnd.randint(5, 12)
+        else:
+            # every sequence several times
+            fam = gen.expand_family(rnd.randrange(2 ** 32), alpha, rnd.randint(22, 36), rnd.randint(25, 50), 0.2, 0.06, 0.2)
+            seqs = [x for x in fam for _ in range(rnd.randint(4, 6))]
+        rnd.shuffle(seqs)
+        cases_.append({"seqs": seqs, "kind": kind, "mode": "random", "pcase": [0.002, 0.01, 0.05][i % 3], "ptu": [0.0, 0.01][i % 2] if kind == "dna" else 0.0,
+                       "mask_seed": i, "cfg": {"type": 5, "threads": 1 + i % 4, "gpo": -1.0, "gpe": -1.0, "tgpe": -1.0},
+                       "entry": "file" if i % 3 else "arr", "name_mode": "distinct", "nfiles": 1})
     with ThreadPoolExecutor(max_workers=12) as ex:
         res = list(ex.map(check, cases_))
     for c, r in zip(cases_, res):
